@@ -24,7 +24,7 @@ for sd, r in sorted(results.items()):
         print('NOT CONFIRMED', sd, r)
         continue
     base = os.path.basename(sd)
-    if base.startswith(('seed3_', 'seed4_', 'seed5_', 'seed6_', 'seed7_')):
+    if base.startswith(('seed3_', 'seed4_', 'seed5_', 'seed6_', 'seed7_', 'seed8_')):
         name = '%s-r%s-%s' % (r['property'], base[4], base[len('seed3_'):])
     elif base.startswith('seed2_'):
         pid_, k_ = base[len('seed2_'):].split('_')
